@@ -102,7 +102,10 @@ func (s *Sim) janitor(stuck map[string]int) bool {
 		desired := setDesired(set)[ord]
 		sel, err := setSelector(set)
 		matches := err == nil && sel.Matches(labels.Set(p.Labels))
-		if desired && !owned && !(ref == nil && matches) {
+		// a pod somebody else put on the name (not built from the set's template:
+		// adopting it leads to an update the API server forbids, as upstream) is
+		// outside C02's list of initial states; its creator removes it
+		if p.Labels["squatter"] == "true" || desired && !owned && !(ref == nil && matches) {
 			// squatter on a desired name (foreign owner, or orphan that does not match)
 			s.Store.Remove(KPod, p.Namespace, p.Name)
 			s.count("janitor.squatter")
@@ -144,6 +147,15 @@ func (s *Sim) Quiesce() {
 	}
 	if s.inc == nil {
 		s.newIncarnation()
+	}
+	if s.revDirty {
+		// somebody other than the controller wrote ControllerRevisions during the
+		// chaos phase. The controller does not watch revisions (upstream neither), so
+		// only the next reconcile can notice; C02's premise ("caches catch up") is
+		// taken to include one such reconcile per set. Pod and set events are NOT
+		// helped along: their wake-ups stay the controller's own business.
+		s.Resync(KSet)
+		s.count("quiesce.revision_resync")
 	}
 	stuck := map[string]int{}
 	pods := len(s.Store.tables[KPod])
